@@ -80,6 +80,8 @@ def gen_packages_stanza(rng, i):
 def gen_sources_stanza(rng, i):
     pkg = rng.choice(PKGS)
     d = "pool/main/%s/%s" % (pkg[0], pkg)
+    if rng.random() < 0.08:
+        d = rng.choice([".", "./", "extras/..", "pool/main/../main/%s" % pkg])   # flat repositories: Directory: .
     files = ["%s_1.%d.dsc" % (pkg, i), "%s_1.%d.orig.tar.%s" % (pkg, i, rng.choice(["xz", "gz", "bz2"])),
              "%s_1.%d-1.debian.tar.xz" % (pkg, i)][: rng.randint(1, 3)]
     sizes = {f: rng.choice([1, 77, 2048, 10 ** 9]) for f in files}
